@@ -997,6 +997,11 @@ func (fv *FuncVerifier) runLoopR(st *State, env *Env, lc *loopCtx, label string,
 	// body branch
 	bst := head.Clone()
 	bst.Assume(g)
+	if len(fv.fn.Contr.Get("invariant", lc.ord, 0)) > 0 {
+		fv.obls = append(fv.obls, &Obligation{Func: fv.fn.Key, Class: "V", Kind: "loop-reachable", Site: lc.bodyPos, Pos: fv.pos(lc.bodyPos),
+			Assume: append([]Term(nil), bst.pc...), Goal: False, Desc: "loop body reachable under its invariants (vacuity guard)", consts: fv.consts, Cover: true,
+			Name: fmt.Sprintf("%s#V.loop-reachable[loop%d]", fv.fn.Key, lc.ord)})
+	}
 	for _, o := range body(bst) {
 		switch {
 		case o.kind == okNormal || (o.kind == okContinue && (o.label == "" || o.label == label)):
@@ -1203,6 +1208,7 @@ func (fv *FuncVerifier) execRange(st *State, env *Env, x *ast.RangeStmt, label s
 		return fv.runLoopR(st, env, lc, label, ws, havocIt,
 			func(st *State) {
 				lc.names[itName] = getIt(st)
+				lc.names[fmt.Sprintf("xs%d", ord)] = s
 				bindIter(st, kobj, getIt(st))
 			},
 			func(st *State) Term { return Lt(getIt(st), w.SeqLen(s)) },
@@ -1230,6 +1236,10 @@ func (fv *FuncVerifier) execRange(st *State, env *Env, x *ast.RangeStmt, label s
 		st.Assume(T(SBool, "(forall ((k$ %[1]s)) (! (=> %[2]s (and (<= 0 (%[3]s k$)) (< (%[3]s k$) (len_%[4]s %[5]s)) (= (at_%[4]s %[5]s (%[3]s k$)) k$))) :pattern (%[2]s) :pattern ((%[3]s k$))))",
 			ksort, w.MapHas(m, Term{"k$", ksort}).S, idx, kx, ks.S))
 		st.Assume(App(SBool, "=", w.SeqLen(ks), w.MapLen(m)))
+		if ksort == "Seq_Int" {
+			fv.sortedKeys(App("(Array Seq_Int Bool)", "dom_"+mapX(m.Sort), m))
+			st.Assume(App(SBool, "enum_str", ks, App("(Array Seq_Int Bool)", "dom_"+mapX(m.Sort), m)))
+		}
 		st.ghost[itName] = IntLit(0)
 		ksName := fmt.Sprintf("ks%d", ord)
 		// writing to the ranged map inside the body is outside the subset
